@@ -25,8 +25,10 @@ import sys
 
 import psutil
 
-DAEMON_PID = 1000
-FIRST_PID = 2000
+# simulated pids live above the kernel's pid_max so that no code path, however
+# mutated, can ever address a real process with one of them
+DAEMON_PID = 4999999
+FIRST_PID = 5000000
 
 IGNORED_BY_DEFAULT = set(
     int(getattr(_signal, n)) for n in ('SIGCHLD', 'SIGURG', 'SIGWINCH',
